@@ -122,12 +122,19 @@ def block_tables():
                 continue
             if isinstance(v, dict) and v and all(isinstance(k, str) and isinstance(x, str) for k, x in v.items()):
                 found.append((fn, v))
+    def root_names_of(f):
+        return {
+            n.comparators[0].value for n in ast.walk(f)
+            if isinstance(n, ast.Compare) and len(n.ops) == 1 and isinstance(n.ops[0], ast.Eq) and isinstance(n.left, ast.Name)
+            and isinstance(n.comparators[0], ast.Constant) and isinstance(n.comparators[0].value, str)
+        }
+
+    if len(found) > 1:
+        # other dispatch tables keyed by the row type may exist (openers, special rows): the TERMINATOR table is the one
+        # consulted by the function that also compares the current block type with the root block's name
+        found = [(f, v) for f, v in found if len(root_names_of(f)) == 1]
     fn, bem = t1lib.one(found, "test `<row>.type in <dict>` in FlowParser")
-    root_names = {
-        n.comparators[0].value for n in ast.walk(fn)
-        if isinstance(n, ast.Compare) and len(n.ops) == 1 and isinstance(n.ops[0], ast.Eq) and isinstance(n.left, ast.Name)
-        and isinstance(n.comparators[0], ast.Constant) and isinstance(n.comparators[0].value, str)
-    }
+    root_names = root_names_of(fn)
     root_name = t1lib.one(root_names, "root block name")
     # openers: `if <row>.type == "w": … f(…, "<block type>", …)` with a block type of the terminator table
     block_types = set(bem.values())
@@ -141,9 +148,36 @@ def block_tables():
                     for a in list(c.args) + [k.value for k in c.keywords]:
                         if isinstance(a, ast.Constant) and a.value in block_types:
                             opened.setdefault(t.comparators[0].value, set()).add(a.value)
+    if not (opened and all(len(v) == 1 for v in opened.values())) or len(opened) != len(block_types):
+        # the openers are not written as `if <row>.type == "w": parse_block(…, "<type>")` (e.g. a table of openers,
+        # helper methods): read them from BEHAVIOUR — a row type w opens a block of type b iff the two-row sheet
+        # [w, terminator of b] compiles and [w, terminator of another type] does not
+        opened = _probe_openers(bem, t1lib.str_constants(_parse("parsers/creation/flowparser.py")))
     assert opened and all(len(v) == 1 for v in opened.values()), opened
     open_map = sorted((k, next(iter(v))) for k, v in opened.items())
     return sorted(bem.items()), root_name, open_map
+
+
+def _probe_openers(bem, candidates):
+    from harness.flows import compile_flow_sheet
+
+    headers = ["row_id", "type", "from", "message_text", "loop_variable"]
+    terms = sorted(bem.items())
+    opened = {}
+    for w in sorted({c for c in candidates if isinstance(c, str) and c and c not in bem and len(c) < 40}):
+        ok = set()
+        for t, b in terms:
+            rows = [{"row_id": "b1", "type": w, "from": "start", "message_text": "a;b", "loop_variable": "v"},
+                    {"row_id": "m1", "type": "send_message", "from": "", "message_text": "hi"},
+                    {"row_id": "", "type": t, "from": "", "message_text": ""}]
+            try:
+                if compile_flow_sheet(headers, rows).ok:
+                    ok.add(b)
+            except BaseException:  # noqa: BLE001
+                pass
+        if len(ok) == 1:
+            opened[w] = ok
+    return opened
 
 
 def probe_shutdown():
